@@ -295,7 +295,7 @@ CLAIMS['C15'] = {
                'newline, the position of a name is read before its own colon is processed, nothing else writes the lists ("targets '
                'and dependencies kept apart"); both loaders look at the result of Parse, fail when it fails, and consume the whole '
                'ins_ list; on the fixpoint of a zone abstract interpretation of Parse every de-escaping byte write, memset and '
-               'memmove ends at or below the read cursor with a non-negative length (text not yet scanned is never overwritten).',
+               'memmove ends at or below the read cursor with a non-negative length (text not yet scanned is never overwritten); gap-free de-escaping: replayed path by path through each action, the write cursor moves over bytes only if it does not lag behind the scanned span, moves by nothing, stores through the old position, or a fill / move of that many bytes at the old position came first.',
     'not_decided': 'that every escaped spelling (runs of backslashes before space, #, :, $$, line continuations, CRLF) is read back as '
                    'the name that was written: that is the behaviour of the generated scanner on strings, not a shape of the code.',
 }
